@@ -9,13 +9,13 @@ typedef double R;
 struct SPxOut { static void debug_() {} };
 #define debug(...) debug_()   /* SPxOut::debug(this, fmt, args...): no output in non-debug builds; the argument expressions are dropped */
 
-typedef long long Rational;
+typedef ue_rat Rational;
 static Rational g_sink;
-struct VectorRational   /* own cells (copied from / to the ghost arrays by the wrapper) with a dimension */
+struct VectorRational   /* view on a ghost array with a dimension */
 {
-   Rational c[NC]; int* dimp; int cap; bool lenient;
-   Rational& operator[](int i) { if(i < 0 || i >= cap || (dimp && !lenient && i >= *dimp)) { if(!lenient) g_bad++; return g_sink; } return c[i]; }
-   void reDim(int n) { if(dimp) *dimp = n; else g_bad++; }
+   Rational* a; int* dimp; int cap;
+   Rational& operator[](int i) { if(i < 0 || i >= cap || (dimp && i >= *dimp)) { g_bad = 1; return g_sink; } return a[i]; }
+   void reDim(int n) { if(dimp) *dimp = n; else g_bad = 1; }
 };
 struct SolRational
 {
@@ -32,25 +32,34 @@ typedef int RangeType;
 template <class T> struct DataArrayStub
 {
    int* a; int* sizep; int cap; int sink;
-   int& operator[](int i) { if(i < 0 || i >= cap || (sizep && i >= *sizep)) { g_bad++; return sink; } return a[i]; }
-   void reSize(int n) { if(sizep) *sizep = n; else g_bad++; }
+   int& operator[](int i) { if(i < 0 || i >= cap || (sizep && i >= *sizep)) { g_bad = 1; return sink; } return a[i]; }
+   void reSize(int n) { if(sizep) *sizep = n; else g_bad = 1; }
 };
-struct SVStub { int row; int index(int k) const { if(k != 0) g_bad++; return row; } };
+struct SVStub { int row; int index(int k) const { if(k != 0) g_bad = 1; return row; } };
 struct SlackCols
 {
    int num() const { return g_nslack; }
-   SVStub colVector(int i) const { SVStub s; s.row = (i >= 0 && i < CAP) ? g_slackrow[i] : 0; if(i < 0 || i >= g_nslack) g_bad++; return s; }
+   /* precondition "every slack column sits in a valid row, no two in the same row" (what _transformEquality builds),
+    * instantiated at the accessed index; g_slackrow is never written */
+   SVStub colVector(int i) const
+   {
+      SVStub s; s.row = 0;
+      if(i < 0 || i >= g_nslack) { g_bad = 1; return s; }
+      __CPROVER_assume(0 <= g_slackrow[i] && g_slackrow[i] < NR && (i == gi || g_slackrow[i] != g_slackrow[gi]));
+      s.row = g_slackrow[i];
+      return s;
+   }
 };
 struct TimerStub { void start() {} void stop() {} };
 struct StatStub { TimerStub t; TimerStub* transformTime; };
 struct LUStub { void clear() { g_luclear++; } };
 struct RatLP
 {
-   void changeLhs(int row, const Rational& x) { if(row < 0 || row >= NR) { g_bad++; return; } g_lhs[row] = x; }
-   void changeRhs(int row, const Rational& x) { if(row < 0 || row >= NR) { g_bad++; return; } g_rhs[row] = x; }
+   void changeLhs(int row, const Rational& x) { if(row < 0 || row >= NR) { g_bad = 1; return; } g_lhs[row] = x; }
+   void changeRhs(int row, const Rational& x) { if(row < 0 || row >= NR) { g_bad = 1; return; } g_rhs[row] = x; }
    void removeColRange(int a, int b) { g_rm_rat++; g_rm_a = a; g_rm_b = b; }
 };
-struct RealLP { void removeColRange(int a, int b) { g_rm_real++; if(a != g_rm_a || b != g_rm_b) g_bad++; } };
+struct RealLP { void removeColRange(int a, int b) { g_rm_real++; if(a != g_rm_a || b != g_rm_b) g_bad = 1; } };
 
 struct Host
 {
@@ -63,11 +72,13 @@ struct Host
    RealLP* _realLP;
    int numColsRational() const { return g_norig + g_nslack; }
    int numRowsRational() const { return NR; }
-   Rational upperRational(int i) const { if(i < 0 || i >= NC) { g_bad++; return 0; } return g_upper[i]; }
-   Rational lowerRational(int i) const { if(i < 0 || i >= NC) { g_bad++; return 0; } return g_lower[i]; }
-   RangeType _switchRangeType(const RangeType& t) const { return 100 - t; }   /* tagged stand-in for the involution */
-   void untransformEquality(SolRational& sol)
+   Rational upperRational(int i) const { if(i < 0 || i >= NC) { g_bad = 1; return 0; } return g_upper[i]; }
+   Rational lowerRational(int i) const { if(i < 0 || i >= NC) { g_bad = 1; return 0; } return g_lower[i]; }
+   RangeType _switchRangeType(const RangeType& t) const { return t ^ 0x55; }   /* tagged stand-in for the involution */
+   SolRational* solp;
+   void body()
    {
+      SolRational& sol = *solp;
 #include "untransformEquality.inc"
    }
 };
@@ -79,18 +90,15 @@ extern "C" void w_untransformEquality(void)
    E_ZERO = SPxSolverBase<R>::ZERO; E_BASIC = SPxSolverBase<R>::BASIC;
    StatStub st; st.transformTime = &st.t; RatLP rlp; RealLP lp; Host h; SolRational sol;
    h._statistics = &st; h._rationalLP = &rlp; h._realLP = &lp; h._hasBasis = g_hasbasis != 0;
-   sol._slacks.dimp = 0; sol._slacks.cap = NR; sol._slacks.lenient = false;
-   sol._primal.dimp = &g_dim_primal; sol._primal.cap = NC; sol._primal.lenient = false;
-   sol._primalRay.dimp = &g_dim_ray; sol._primalRay.cap = 0; sol._primalRay.lenient = false;
-   sol._redCost.dimp = &g_dim_redcost; sol._redCost.cap = NC; sol._redCost.lenient = true;   /* only read by the debug message */
-   sol._dual.dimp = 0; sol._dual.cap = NR; sol._dual.lenient = true;                          /* only read by the debug message */
-   for(int i = 0; i < NR; i++) sol._slacks.c[i] = g_slacks[i];
-   for(int i = 0; i < NC; i++) sol._primal.c[i] = g_primal[i];
+   sol._slacks.a = g_slacks; sol._slacks.dimp = 0; sol._slacks.cap = NR;
+   sol._primal.a = g_primal; sol._primal.dimp = &g_dim_primal; sol._primal.cap = NC;
+   sol._primalRay.a = 0; sol._primalRay.dimp = &g_dim_ray; sol._primalRay.cap = 0;
+   sol._redCost.a = 0; sol._redCost.dimp = &g_dim_redcost; sol._redCost.cap = 0;
+   sol._dual.a = 0; sol._dual.dimp = 0; sol._dual.cap = 0;
    h._basisStatusRows.a = g_rowstat; h._basisStatusRows.sizep = 0; h._basisStatusRows.cap = NR;
    h._basisStatusCols.a = g_colstat; h._basisStatusCols.sizep = &g_ncolstat; h._basisStatusCols.cap = NC;
    h._rowTypes.a = g_rowtype; h._rowTypes.sizep = 0; h._rowTypes.cap = NR;
    h._colTypes.a = g_coltype; h._colTypes.sizep = &g_ncoltype; h._colTypes.cap = NC;
-   h.untransformEquality(sol);
-   for(int i = 0; i < NR; i++) g_slacks[i] = sol._slacks.c[i];
-   for(int i = 0; i < NC; i++) g_primal[i] = sol._primal.c[i];
+   h.solp = &sol;
+   h.body();
 }
